@@ -195,8 +195,16 @@ def prune_cache(max_bytes=3 * 1024 ** 3):
 
 def coq_make(targets=(), timeout=1500):
     """(re)build Coq targets (full .vo).  Returns (ok, output)."""
-    if not os.path.exists(os.path.join(COQ, "Makefile")):
-        run(["coq_makefile", "-f", "_CoqProject", "-o", "Makefile"], cwd=COQ, check=True)
+    # the Makefile is generated from the files of _CoqProject that exist (a proof file still being written must not
+    # block the others)
+    lines = [l.strip() for l in read(os.path.join(COQ, "_CoqProject"), "r").split("\n") if l.strip()]
+    keep = [l for l in lines if not l.endswith(".v") or os.path.exists(os.path.join(COQ, l))]
+    gen = "\n".join(keep) + "\n"
+    genp = os.path.join(COQ, ".CoqProject.gen")
+    if not os.path.exists(os.path.join(COQ, "Makefile")) or not os.path.exists(genp) or read(genp, "r") != gen:
+        with open(genp, "w") as f:
+            f.write(gen)
+        run(["coq_makefile", "-f", ".CoqProject.gen", "-o", "Makefile"], cwd=COQ, check=True)
     p = run(["timeout", str(timeout), "make", "-k", "-j%d" % NJOBS] + list(targets), cwd=COQ)
     return p.returncode == 0, p.stdout + p.stderr
 
@@ -316,6 +324,8 @@ def run_lines_resilient(cmd, lines, timeout=900, env=None, max_crashes=5):
         if got and got[-1] == "":
             got = got[:-1]
         complete = got if rc == 0 else got[:max(0, len(got) - (0 if so.endswith("\n") else 1))]
+        if rc != 0 and complete and complete[-1].endswith(" TIMEOUT"):
+            complete = complete[:-1]          # the driver's own per-case alarm fired in the middle of this case
         for k, l in enumerate(complete[:len(lines) - start]):
             outs[start + k] = l
         if rc == 0 and len(complete) >= len(lines) - start:
